@@ -495,8 +495,10 @@ HLconvert(int32 aid, int32 block_length, int32 number_blocks)
     }
 
     /* write out special information */
-    if (Hwrite(dd_aid, 16, local_ptbuf) == FAIL)
+    if (Hwrite(dd_aid, 16, local_ptbuf) == FAIL) {
+        Hendaccess(dd_aid); /* do not leave the file with an access record nobody can release */
         HGOTO_ERROR(DFE_WRITEERROR, FAIL);
+    }
     if (Hendaccess(dd_aid) == FAIL)
         HGOTO_ERROR(DFE_CANTENDACCESS, FAIL);
 
